@@ -5,6 +5,7 @@ package ondisk
 import (
 	"bytes"
 	"context"
+	"crypto/sha1"
 	"encoding/json"
 	"fmt"
 	"io"
@@ -23,6 +24,7 @@ import (
 	"github.com/mutagen-io/mutagen/pkg/synchronization"
 	"github.com/mutagen-io/mutagen/pkg/synchronization/core"
 	"github.com/mutagen-io/mutagen/pkg/synchronization/endpoint/local"
+	"github.com/mutagen-io/mutagen/pkg/synchronization/endpoint/local/staging/store"
 	"github.com/mutagen-io/mutagen/pkg/synchronization/rsync"
 
 	"verif/internal/vr"
@@ -394,6 +396,15 @@ func c17cases(thorough bool) []c17case {
 			out = append(out, c17case{Leg: "endpoint", Link: L, Abs: abs})
 		}
 	}
+	// Staging through the local endpoint: staging mode x what is planted (a
+	// link to the canary) on the staging path before the first Stage.
+	for _, mode := range []string{"mutagen", "neighboring", "internal"} {
+		for _, plant := range []string{"none", "root", "prefix", "file"} {
+			for _, when := range []string{"after-scan", "before-scan"} {
+				out = append(out, c17case{Leg: "endpoint-staging", Op: mode, Link: plant, When: when})
+			}
+		}
+	}
 	return out
 }
 
@@ -661,6 +672,21 @@ func runC17(w *world, c c17case, verbose func(string, ...any)) (what string, cla
 		class = "endpoint"
 		nontrivial = true
 
+	case "endpoint-staging":
+		bad, touched, class = runC17Staging(w, c, tree, logf)
+		nontrivial = c.Link != "none"
+		if c.Op != "internal" {
+			// Only the internal staging root lives inside the synchronization
+			// root; a link planted in the data directory or next to the root is
+			// not "a symbolic link that lives inside the root", so what happens
+			// to the canary there is recorded but not judged by this property.
+			if len(touched) > 0 {
+				class += " [outside-root link followed: not judged]"
+			}
+			touched = nil
+			nontrivial = false
+		}
+
 	default:
 		panic("INFRA: unknown leg " + c.Leg)
 	}
@@ -673,6 +699,137 @@ func runC17(w *world, c c17case, verbose func(string, ...any)) (what string, cla
 		what = strings.Join(bad, "; ")
 	}
 	return what, class, nontrivial
+}
+
+// stagedNames computes, with the real staging store, the prefix directory and
+// file name under which content with the given path and bytes is staged (the
+// scheme is digest- and path-hash based; it does not depend on the root).
+func stagedNames(scratch, path, data string) (prefix, name string, err error) {
+	st := store.NewStore(scratch, false, 1<<30, sha1.New)
+	if err = st.Initialize(); err != nil {
+		return
+	}
+	sto, err := st.Allocate()
+	if err != nil {
+		return
+	}
+	if _, err = sto.Write([]byte(data)); err != nil {
+		return
+	}
+	if err = sto.Commit(path); err != nil {
+		return
+	}
+	ents, err := os.ReadDir(scratch)
+	if err != nil {
+		return
+	}
+	for _, e := range ents {
+		if e.IsDir() {
+			sub, _ := os.ReadDir(filepath.Join(scratch, e.Name()))
+			if len(sub) == 1 {
+				return e.Name(), sub[0].Name(), nil
+			}
+		}
+	}
+	return "", "", fmt.Errorf("staged file not found under %s", scratch)
+}
+
+// runC17Staging: real local endpoint in the given staging mode; a link to the
+// canary is planted at the staging root, at the prefix directory or at the
+// staged file's own path; then Scan, Stage, reception and Transition of one
+// new file.
+func runC17Staging(w *world, c c17case, tree *node, logf func(string, ...any)) (bad []string, touched []string, class string) {
+	infra := func(err error) {
+		if err != nil {
+			panic(fmt.Sprintf("INFRA: %v (case %s)", err, c.key()))
+		}
+	}
+	const newPath, newData = "n2", "echo: freshly staged bytes"
+	canary := filepath.Join(w.base, "canary")
+	infra(w.makeIntraCanary())
+	prefix, name, err := stagedNames(filepath.Join(w.base, "names"), newPath, newData)
+	infra(err)
+	infra(os.RemoveAll(filepath.Join(w.base, "names")))
+	src := filepath.Join(w.base, "src")
+	infra(materialize(src, nD(newPath, nF(newData))))
+
+	w.seq++
+	session := fmt.Sprintf("sync_verifstage_%s_%d", filepath.Base(w.base), w.seq)
+	cfg := &synchronization.Configuration{WatchMode: synchronization.WatchMode_WatchModeNoWatch}
+	var stagingRoot string
+	switch c.Op {
+	case "mutagen":
+		cfg.StageMode = synchronization.StageMode_StageModeMutagen
+		stagingRoot = filepath.Join(os.Getenv("MUTAGEN_DATA_DIRECTORY"), "staging", session+"-beta")
+		infra(os.MkdirAll(filepath.Dir(stagingRoot), 0o700))
+	case "neighboring":
+		cfg.StageMode = synchronization.StageMode_StageModeNeighboring
+		stagingRoot = filepath.Join(w.base, filesystem.TemporaryNamePrefix+"staging-"+session+"-beta")
+	case "internal":
+		cfg.StageMode = synchronization.StageMode_StageModeInternal
+		stagingRoot = filepath.Join(w.root, filesystem.TemporaryNamePrefix+"staging-"+session+"-beta")
+	}
+	plant := func() {
+		switch c.Link {
+		case "root":
+			infra(os.Symlink(filepath.Join(canary, "d"), stagingRoot))
+		case "prefix":
+			infra(os.Mkdir(stagingRoot, 0o700))
+			infra(os.Symlink(filepath.Join(canary, "d"), filepath.Join(stagingRoot, prefix)))
+		case "file":
+			infra(os.MkdirAll(filepath.Join(stagingRoot, prefix), 0o700))
+			infra(os.Symlink(filepath.Join(canary, "f0"), filepath.Join(stagingRoot, prefix, name)))
+		}
+	}
+	if c.When == "before-scan" {
+		plant()
+	}
+	ep, err := local.NewEndpoint(nil, w.root, session, synchronization.Version_Version1, cfg, false)
+	infra(err)
+	defer ep.Shutdown()
+	defer os.RemoveAll(stagingRoot)
+	snap, err, _ := ep.Scan(context.Background(), nil, true)
+	infra(err)
+	if !snap.Content.Equal(tree.entry(), true) {
+		bad = append(bad, "endpoint scan differs from the generated tree: "+describe(snap.Content))
+	}
+	if c.When == "after-scan" {
+		plant()
+	}
+	g := w.guard()
+	outcome := "staged"
+	fpaths, sigs, recv, err := ep.Stage([]string{newPath}, [][]byte{digestOf(newData)})
+	if err != nil {
+		outcome = "stage refused"
+		logf("stage error: %v", err)
+	} else if recv != nil {
+		infra(rsync.Transmit(src, fpaths, sigs, recv))
+	}
+	results, problems, _, terr := ep.Transition(context.Background(), []*core.Change{{Path: newPath, New: nF(newData).entry()}})
+	touched = g.verdict()
+	infra(terr)
+	created := len(results) == 1 && results[0] != nil
+	logf("results %v problems %s", created, problemsString(problems))
+	if created {
+		outcome += ", created"
+		if got, err := os.ReadFile(filepath.Join(w.root, newPath)); err != nil || string(got) != newData {
+			bad = append(bad, fmt.Sprintf("created %q holds %q (%v)", newPath, got, err))
+		}
+	} else {
+		outcome += ", not created"
+	}
+	switch c.Link {
+	case "none":
+		if !created {
+			bad = append(bad, "staging without any planted link failed: "+problemsString(problems))
+		}
+	case "root", "prefix":
+		// "Operations whose path crosses such a link fail instead."
+		if created && c.Op == "internal" {
+			bad = append(bad, fmt.Sprintf("file staged and created although the staging %s is a link", c.Link))
+		}
+	}
+	return bad, touched, fmt.Sprintf("staging %s/%s: %s", c.Op, c.Link, outcome)
 }
 
 // runC17Endpoint drives a real local endpoint: Scan, link swap, Stage
@@ -820,7 +977,7 @@ func TestC17(t *testing.T) {
 		r.Set("detector_selftest_events", len(seen))
 	}
 
-	r.Rule(fmt.Sprintf("one fixed root (a/{x,y,l,d/y,s/{x,y,l,d/y}}, b) in which one path component is, or becomes between the scan and the operation, a symbolic link (relative and absolute) to a canary outside the root; %d cases: Transition (11 operations x {a/, a/s/} x every link position on the planned path incl. the leaf x {link appears after the scan: the directory/file itself is moved out and becomes the canary, so inodes, times and the cache all match; link already there at scan time} + removal/replacement of a directory that is or contains the link), core.Scan (cold in 3 link modes, warm, accelerated with 4 re-check sets x 5 link positions), filesystem.Opener (every sequence of <=3 (thorough: <=4) opens over 5 paths that crosses the link x link appearing before open K), rsync.Transmit, rsync receiver (bases across the link), and a real local endpoint (Scan, Stage with copy-from-root shortcut, reception, Supply, Transition). Intra-operation legs: for every quick-tier tree x single-change plan x {no ownership, DefaultOwner+Group} (thorough: also EXDEV staging), every tree scanned in 2 link modes, and every Opener sequence of <=2 opens, a recording run yields the hook points; then one run per point x {leaf, parent} in which, at that point and before the real syscall proceeds, the named object (or its parent directory) is moved aside and replaced by a link to a canary file/directory of the matching type (canary modes 0755/0644, owner root, so chmod/chown show); only canary integrity is judged there. Non-trivial = the operation was aimed across the link (for accelerated scans: the link position was marked dirty; for intra-operation runs: the swap was carried out); distinct by all case parameters", len(cases)))
+	r.Rule(fmt.Sprintf("one fixed root (a/{x,y,l,d/y,s/{x,y,l,d/y}}, b) in which one path component is, or becomes between the scan and the operation, a symbolic link (relative and absolute) to a canary outside the root; %d cases: Transition (11 operations x {a/, a/s/} x every link position on the planned path incl. the leaf x {link appears after the scan: the directory/file itself is moved out and becomes the canary, so inodes, times and the cache all match; link already there at scan time} + removal/replacement of a directory that is or contains the link), core.Scan (cold in 3 link modes, warm, accelerated with 4 re-check sets x 5 link positions), filesystem.Opener (every sequence of <=3 (thorough: <=4) opens over 5 paths that crosses the link x link appearing before open K), rsync.Transmit, rsync receiver (bases across the link), and a real local endpoint (Scan, Stage with copy-from-root shortcut, reception, Supply, Transition; plus staging modes {mutagen, neighboring, internal} x a link to the canary planted at {nothing, the staging root, the staged file's prefix directory, the staged file's own path} x {before, after the scan}, judged for the internal mode, whose staging root lives inside the root). Intra-operation legs: for every quick-tier tree x single-change plan x {no ownership, DefaultOwner+Group} (thorough: also EXDEV staging), every tree scanned in 2 link modes, and every Opener sequence of <=2 opens, a recording run yields the hook points; then one run per point x {leaf, parent} in which, at that point and before the real syscall proceeds, the named object (or its parent directory) is moved aside and replaced by a link to a canary file/directory of the matching type (canary modes 0755/0644, owner root, so chmod/chown show); only canary integrity is judged there. Non-trivial = the operation was aimed across the link (for accelerated scans: the link position was marked dirty; for intra-operation runs: the swap was carried out); distinct by all case parameters", len(cases)))
 	r.Assume("the canary is observed by inotify (IN_ALL_EVENTS on every directory and file; events are queued by the kernel inside the causing syscall), by a strict lstat+bytes snapshot, and by the verif hook points (descriptor resolves into the canary)",
 		"stat/lstat of the link itself is not an access outside the root; O_PATH opens and stat calls are invisible to inotify",
 		"link swaps happen between operations or, in the intra-operation legs, at hook points immediately before a filesystem call; windows inside the kernel during one call are not explored",
